@@ -115,6 +115,8 @@ type Call struct {
 	Key    Key
 	DryRun bool
 	Write  bool
+	// Obj is the request body of a create / update / apply (nil otherwise). Read only.
+	Obj *unstructured.Unstructured
 }
 
 // Server is the object store.
@@ -217,6 +219,15 @@ func (s *Server) Peek(k Key) *unstructured.Unstructured {
 		return o.DeepCopy()
 	}
 	return nil
+}
+
+// Read calls fn with the stored objects under the server lock. fn must not
+// modify them or retain references (projection functions use this to avoid
+// deep copies).
+func (s *Server) Read(fn func(keys []Key, objs map[Key]*unstructured.Unstructured)) {
+	s.mu.Lock()
+	defer s.mu.Unlock()
+	fn(s.keysLocked(), s.objs)
 }
 
 // Keys returns all keys, sorted.
